@@ -29,6 +29,7 @@ ASSIGN = [f + b for b in ('Json', 'Toml') for f in ('AssignScalar', 'AssignObjec
 LABELS = [n + 'Err' + a for n in ('Resolve', 'Assign') for a in ('Position', 'Offset', 'Labels')]
 PARSEERR = ['ParseErrOffset', 'ParseErrPointerOffset', 'ParseErrSourceOffset', 'ParseErrCompleteOffset', 'ParseErrInvalidEncodingLen', 'ParseErrLabels']
 CMP = [sp['id'] for sp in rs2lean.FUNCS if sp.get('cmpimpl')]
+DOORS = ['Validate', 'PointerParse', 'PointerBufParse', 'BufTryFromString', 'BufTryFromStr', 'BufFromStr']
 BUILD = ['GetUsize', 'First', 'Last', 'WithTrailingToken', 'WithLeadingToken', 'Concat']
 BUF = ['FromTokens', 'PushFront', 'PushBack', 'PopBack', 'Append', 'Clear', 'PopFront', 'Replace']
 def _u(*ls):
@@ -39,9 +40,9 @@ def _u(*ls):
     return out
 # which regenerated functions each property rests on, and the transported theorem modules
 PROP_FUNCS = {
-    'C01': _u(['ValidateBytes'], TOKEN, SLICE, POINTER, BUF, BUILD),
+    'C01': _u(['ValidateBytes'], DOORS, TOKEN, SLICE, POINTER, BUF, BUILD),
     'C11': _u(BUF, ['IsRoot', 'Count']),
-    'C02': ['ValidateBytes'], 'C14': _u(['ValidateBytes'], PARSEERR),
+    'C02': _u(['ValidateBytes'], DOORS), 'C14': _u(['ValidateBytes'], PARSEERR, DOORS),
     'C05': _u(WALKS, ['IndexFromStr', 'ForLen'], TOIDX), 'C09': _u(WALKS, DELETE, EXPAND, ASSIGN, ['IndexFromStr', 'ForLen'], TOIDX), 'C15': _u(WALKS, ASSIGN, LABELS, ['IndexFromStr', 'ForLen'], TOIDX),
     'C08': _u(WALKS, DELETE, ['IndexFromStr', 'ForLen'], TOIDX), 'C10': _u(WALKS, DELETE, EXPAND, ASSIGN, ['IndexFromStr', 'ForLen'], TOIDX),
     'C06': _u(EXPAND, ASSIGN, ['IndexFromStr', 'ForLenIncl'], TOIDX), 'C07': _u(EXPAND, ASSIGN, ['IndexFromStr', 'ForLenIncl'], TOIDX),
@@ -51,7 +52,7 @@ PROP_FUNCS = {
 }
 TRANSPORT_MEMBERS = {'TransportValidate': ['ValidateBytes'], 'TransportToken': TOKEN, 'TransportSlice': SLICE, 'TransportIndex': INDEX,
                      'TransportPointer': POINTER, 'TransportResolve': WALKS, 'TransportBuf': BUF, 'TransportDelete': ['DeleteJson', 'DeleteToml'], 'TransportExpand': ['ExpandJson', 'ExpandToml'],
-                     'TransportAssign': [x for x in ASSIGN if x.startswith('Assign')], 'TransportBuild': BUILD, 'TransportCmp': CMP, 'TransportLabels': LABELS, 'TransportParseErr': PARSEERR}
+                     'TransportAssign': [x for x in ASSIGN if x.startswith('Assign')], 'TransportBuild': BUILD, 'TransportDoors': DOORS, 'TransportCmp': CMP, 'TransportLabels': LABELS, 'TransportParseErr': PARSEERR}
 TIE_THEOREMS = {
     'ValidateBytes': ['Jp.Tie.validate_bytes_eq', 'Jp.Tie.validate_bytes_nil'], 'FromEncoded': ['Jp.Tie.from_encoded_eq'],
     'TokenNew': ['Jp.Tie.new_eq'], 'Decoded': ['Jp.Tie.decoded_eq'], 'ForLen': ['Jp.Tie.for_len_eq'],
@@ -85,11 +86,14 @@ TIE_THEOREMS = {
     'ParseErrInvalidEncodingLen': ['Jp.Tie.parse_err_invalid_encoding_len_eq'], 'ParseErrLabels': ['Jp.Tie.parse_err_labels_eq'],
     'GetUsize': ['Jp.Tie.get_usize_eq', 'Jp.Tie.get_usize_none'], 'First': ['Jp.Tie.first_eq'], 'Last': ['Jp.Tie.last_eq'],
     'WithTrailingToken': ['Jp.Tie.with_trailing_token_eq'], 'WithLeadingToken': ['Jp.Tie.with_leading_token_eq'], 'Concat': ['Jp.Tie.concat_eq'],
+    'Validate': ['Jp.Tie.validate_eq'], 'PointerParse': ['Jp.Tie.pointer_parse_eq'], 'PointerBufParse': ['Jp.Tie.pointer_buf_parse_eq'],
+    'BufTryFromString': ['Jp.Tie.buf_try_from_string_eq'], 'BufTryFromStr': ['Jp.Tie.buf_try_from_str_eq'], 'BufFromStr': ['Jp.Tie.buf_from_str_eq'],
     'ParseIndex': ['Jp.Tie.parse_index_eq'], 'ResolveJson': ['Jp.Tie.resolve_json_eq', 'Jp.Tie.resolve_json_loop'],
     'ResolveMutJson': ['Jp.Tie.resolve_mut_json_eq'], 'ResolveToml': ['Jp.Tie.resolve_toml_eq'], 'ResolveMutToml': ['Jp.Tie.resolve_mut_toml_eq'],
 }
 for _i in CMP: TIE_THEOREMS[_i] = [f'Jp.Tie.cmp_{_i}_eq']
 TRANSPORT_THEOREMS = {
+    'TransportDoors': ['gen_parse_eq_spec', 'gen_parse_ok_iff', 'gen_doors_agree', 'gen_parse_no_panic'],
     'TransportCmp': ['gen_eq_impls_are_text_eq', 'gen_ord_impls_are_lexCmp', 'gen_eq_iff_ord_eq'],
     'TransportValidate': ['gen_validate_ok_iff', 'gen_validate_no_panic', 'gen_no_leading_slash_iff'],
     'TransportToken': ['gen_from_encoded_ok_iff', 'gen_from_encoded_verbatim', 'gen_from_encoded_err_truthful',
